@@ -49,7 +49,10 @@ CFG = {
             "pass-throughs: every data length 0..100 (thorough 0..300) x the prefixes the library uses and arbitrary / upper-case / refused "
             "ones (empty, mixed case, 84 characters, space, DEL, non-ASCII), arbitrary 5-bit symbols (padding rules of from_base32), 16 "
             "kinds of damaged texts (one wrong symbol, foreign character, upper-cased, mixed case, truncated, separator removed, wrong "
-            "HRP letter, non-ASCII, inserted / swapped symbols, noise); for addresses the exact to_bech32 text is compared; non-trivial = distinct case whose model result holds a "
+            "HRP letter, non-ASCII, inserted / swapped symbols, noise); for addresses the exact to_bech32 text is compared; (b58a) ByronAddress::is_valid / from_base58 / to_base58 on the Base58 text of "
+            "Byron bytes that are canonical, followed by 1..3 extra bytes, truncated, non-canonical, prefixed with zero bytes, bit-flipped, "
+            "random; (becha) Address::from_bech32 of the bech32 text of valid / trailing / truncated / empty / random payloads; from_hex "
+            "in every dec case; non-trivial = distinct case whose model result holds a "
             "decoded (non-malformed) address or a decoded Base58 text",
     "trusted_base": [
         "bech32 0.7.3 is no longer trusted through a premise: coq/Addr/Bech32.v transcribes its encode / decode / check_hrp / polymod / ToBase32 / convert_bits (tables CHARSET, CHARSET_REV, GEN copied by script) and the run compares it with the crate (hook H12 pass-throughs, /repo bb0b0ab)",
